@@ -92,12 +92,12 @@ def run_prop(prop, tier, seed, replay=None, make_cases=None):
             impl = P.get(j)
             if impl:
                 stats['implemented'] += 1
-            if prop == 'C02' and impl != (len(app) == 1):
+            if prop in ('C02', 'C15', 'C16') and impl != (len(app) == 1):
                 violations.append(dict(case_dump(c), kind='property', request=c.invocation(),
                                        oracle='probe %s: %s but the trait is %simplemented' % (
                                            c.probes[j][1], 'satisfies block %d' % app[0] if app else 'satisfies no block', '' if impl else 'not ')))
                 break
-        if prop == 'C02':
+        if prop in ('C02', 'C15', 'C16'):
             nontrivial.add(c.invocation())
         if prop == 'C01':
             if 'V_error' in o:
